@@ -148,6 +148,7 @@ func vTransOK(t pr.SDimensions) bool {
 //@   props C14
 //@   modifies anything
 //@   unclaimed call-makeBookmarkTree@1-pre1 "bookmark levels >= 1: established by the bookmark-level validator, not tracked through the page list"
+//@   unclaimed call-setMediaBoxes@1-pre1 "the bleed of a page is a validated non-negative length; the backend page is the one AddPage returned"
 //@   call AddPage#1 assert[media-box] scale != 0 ==> arg1 == -fl(page.Bleed.Left) && arg2 == -fl(page.Bleed.Top) && arg3 == page.Width + fl(page.Bleed.Left) + fl(page.Bleed.Right) && arg4 == page.Height + fl(page.Bleed.Top) + fl(page.Bleed.Bottom)
 //@   call addHyperlinks#1 assert[links-of-this-page] arg1 == pagedLinks[rangeindex] && arg2 == outputPage
 //@   call scaleAnchors#1 assert[anchors-of-this-page] arg1 == pagedAnchors[rangeindex]
@@ -187,3 +188,15 @@ func vTransOK(t pr.SDimensions) bool {
 //@   assert after repeatWidth#3: nRepeats - 1 >= 1 && repeatWidth * (nRepeats - 1) == positioningWidth - imageWidth
 //@   assert after repeatHeight#3: nRepeats - 1 >= 1 && repeatHeight * (nRepeats - 1) == positioningHeight - imageHeight
 //@   call NewGroup#1 assert[pattern-size] arg1 == 0 && arg2 == 0 && arg3 == repeatWidth && arg4 == repeatHeight
+
+// PDF page boxes (ISO 32000 §14.11.2): with non-negative bleeds the boxes handed to the backend are nested —
+// the MediaBox (the CSS bleed box) contains the BleedBox, which contains the TrimBox (the CSS page box) — and
+// the BleedBox is at most 10 units away from the TrimBox on every side.
+//@ func setMediaBoxes
+//@   props C14
+//@   modifies anything
+//@   requires target != nil && bleed.Top >= 0 && bleed.Bottom >= 0 && bleed.Left >= 0 && bleed.Right >= 0
+//@   call SetMediaBox#1 assert arg1 == mediaBox[0] && arg2 == mediaBox[1] && arg3 == mediaBox[2] && arg4 == mediaBox[3]
+//@   call SetTrimBox#1 assert[inside-media] mediaBox[0] <= arg1 && mediaBox[1] <= arg2 && arg3 <= mediaBox[2] && arg4 <= mediaBox[3]
+//@   call SetBleedBox#1 assert[between-media-and-trim] mediaBox[0] <= arg1 && arg1 <= trimLeft && mediaBox[1] <= arg2 && arg2 <= trimTop && trimRight <= arg3 && arg3 <= mediaBox[2] && trimBottom <= arg4 && arg4 <= mediaBox[3]
+//@   call SetBleedBox#1 assert[at-most-10] trimLeft - arg1 <= 10 && trimTop - arg2 <= 10 && arg3 - trimRight <= 10 && arg4 - trimBottom <= 10
